@@ -45,7 +45,7 @@ fn gen_failing(rng: &mut Rng, ids: &mut Ids, me: &str, other: &str, allow_overfl
     let n = ids.next();
     let call = |f: &str, args: &str, out: &str| format!("(call \"{me}\" (\"svc\" \"{f}\") [{args}]{}{out})", if out.is_empty() { "" } else { " " });
     let obj = |n: usize| (vec![call(&format!("f{n}"), "", &format!("v{n}"))], format!("v{n}"));
-    let w = [14, 10, 6, 8, 8, 22, 6, 8, 4, 4, 5, 6, 1, 10, 8, 12];
+    let w = [14, 10, 6, 8, 8, 22, 6, 8, 4, 4, 5, 6, 1, 10, 8, 12, 10];
     match rng.weighted(&w) {
         0 => Failing { pre: vec![], f: call(&format!("e{n}"), "", if rng.chance(1, 2) { "" } else { "out" }).replace(" out)", &format!(" x{n})")), kind: "service-error", expect: Expect::Catchable },
         1 => Failing { pre: vec![], f: format!("(fail {} \"msg{n}\")", 1 + rng.below(20000)), kind: "fail-literal", expect: Expect::Catchable },
@@ -110,6 +110,19 @@ fn gen_failing(rng: &mut Rng, ids: &mut Ids, me: &str, other: &str, allow_overfl
             Failing { pre: vec![call(&format!("f{n}"), "", &format!("dup{n}"))], f: call(&format!("f{n}b"), "", &format!("dup{n}")), kind: "scalar-shadowing", expect: Expect::Uncatchable }
         }
         12 if allow_overflow => Failing { pre: vec![], f: format!("(seq (ap \"seed\" $ov{n}) (fold $ov{n} it{n} (seq (ap it{n} $ov{n}) (next it{n}))))"), kind: "stream-size-limit", expect: Expect::Uncatchable },
+        16 => {
+            // a failure that follows an earlier failure which a par or a stream fold kept to itself: the
+            // error object must describe the failure that is caught, not the earlier one
+            let (a, b) = (1 + rng.below(400), 500 + rng.below(400));
+            let second = if rng.chance(1, 2) { format!("(fail {b} \"second{n}\")") } else { call(&format!("e{n}"), "", "") };
+            let f = match rng.below(4) {
+                0 => format!("(seq (par (fail {a} \"first{n}\") (null)) {second})"),
+                1 => format!("(seq (par (null) {}) {second})", call(&format!("e{n}b"), "", "")),
+                2 => format!("(par (fail {a} \"first{n}\") {second})"),
+                _ => format!("(seq (seq (ap \"v{n}\" $sf{n}) (fold $sf{n} it{n} (seq (fail {a} \"first{n}\") (next it{n})))) {second})"),
+            };
+            Failing { pre: vec![], f, kind: "failure-after-a-contained-failure", expect: Expect::Catchable }
+        }
         15 => {
             // failures of instructions that write a trace state when they succeed
             let (mut pre, v) = obj(n);
